@@ -1,4 +1,5 @@
 import MithrilModel.Pool
+import MithrilModel.PoolWake
 /-!
 # C18 — A pooled Merkle-map cache never serves data from a superseded generation
 
@@ -80,5 +81,59 @@ theorem C18_tag_race_repaired :
 example : Inv init ∧ Reach init (step (step init (.setDisc 1)) .clear) :=
   ⟨⟨by intro r hr; revert r; decide, by decide, by intro x hx; cases hx⟩,
    Reach.refresh init 1 Reach.init (by decide)⟩
+
+/-! ## `C18_wake` — blocking `acquire_resource`, `notify_one`, time-outs (`MithrilModel/PoolWake.lean`) -/
+
+/-- **C18_wake (T2), safety form.** For every initial pool and every finite interleaving of the steps that
+`std::sync::{Mutex, Condvar}` allow (G1–G4 of `PoolWake`), by any number of threads: never is a resource queued while a
+thread is blocked in `wait_timeout` and no notification is pending. -/
+theorem C18_wake (p : Pool.St) (ops : List PoolWake.Op) (hstd : ∀ op ∈ ops, PoolWake.StdOp op) :
+    ¬ PoolWake.Stuck (PoolWake.run (PoolWake.start p) ops) := PoolWake.wake_safe p ops hstd
+
+/-- quantitative form: while a thread is blocked, at least as many notifications are pending as resources are queued -/
+theorem C18_wake_counts (p : Pool.St) (ops : List PoolWake.Op) (hstd : ∀ op ∈ ops, PoolWake.StdOp op) :
+    (PoolWake.run (PoolWake.start p) ops).parked ≠ [] →
+    (PoolWake.run (PoolWake.start p) ops).pool.queue.length ≤ (PoolWake.run (PoolWake.start p) ops).woken.length :=
+  PoolWake.wake_counts p ops hstd
+
+/-- no lost wake-up: a thread that has found the queue empty and has not parked yet holds the mutex — every call that
+touches the queue is blocked, and the queue is still empty — in every reachable state -/
+theorem C18_wake_no_lost_wakeup (p : Pool.St) (ops : List PoolWake.Op) (hstd : ∀ op ∈ ops, PoolWake.StdOp op) (t : Nat)
+    (ho : (PoolWake.run (PoolWake.start p) ops).owner = some t) :
+    (PoolWake.run (PoolWake.start p) ops).pool.queue = [] ∧
+    ∀ pop pick, (∀ d, pop ≠ .setDisc d) →
+      PoolWake.stepCall (PoolWake.run (PoolWake.start p) ops) pop pick = PoolWake.run (PoolWake.start p) ops :=
+  ⟨PoolWake.queue_empty_until_parked p ops hstd t ho,
+   fun pop pick h => (PoolWake.no_call_between_check_and_park _ t ho pop pick).2 h⟩
+
+/-- the time-out of a blocked thread is enabled in every state -/
+theorem C18_wake_timeout_enabled (s : PoolWake.St) (t : Nat) (h : t ∈ s.parked) :
+    (PoolWake.step s (.timeout t)).parked.length + 1 = s.parked.length ∧
+    (PoolWake.step s (.timeout t)).expired = t :: s.expired ∧ (PoolWake.step s (.timeout t)).pool = s.pool :=
+  PoolWake.timeout_enabled s t h
+
+/-- … and the time-outs lead out of the excluded state from ANY state, the queued resources staying in the pool -/
+theorem C18_wake_timeouts_unstick (s : PoolWake.St) :
+    ¬ PoolWake.Stuck (PoolWake.run s (s.parked.map .timeout)) ∧
+    (PoolWake.run s (s.parked.map .timeout)).pool = s.pool := PoolWake.timeouts_unstick s
+
+/-- freshness, bound and tags (C18_fresh_every_interleaving) along every run with blocking acquires -/
+theorem C18_wake_fresh (p : Pool.St) (h : Inv p) (ops : List PoolWake.Op)
+    (hok : ∀ pop pick, PoolWake.Op.call pop pick ∈ ops → OpOk pop) :
+    Inv (PoolWake.run (PoolWake.start p) ops).pool := PoolWake.run_pool_inv (PoolWake.start p) h ops hok
+
+/-- without the atomicity of unlock-and-block (G2) a wake-up is lost -/
+theorem C18_wake_lost_wakeup_without_atomic_wait :
+    PoolWake.Stuck (PoolWake.run (PoolWake.start PoolWake.p0) PoolWake.lostWakeupTrace) :=
+  PoolWake.lostWakeup_without_G2
+
+/-- COUNTER-EXAMPLE outside Linux: if a notified waiter may report a time-out (POSIX `pthread_cond_timedwait`), the
+safety form is false for this code — `acquire_resource` returns on `timed_out()` without looking at the queue -/
+theorem C18_wake_posix_counterexample : ¬ PoolWake.wake_goal_posix := PoolWake.wake_goal_posix_false
+
+/-- non-vacuity: a std run with two blocked threads, two refills, both served -/
+example : (∀ op ∈ ([.call (.acquire 1) 0, .park 1, .call (.giveBack ⟨0⟩ 0) 1, .resume 1] : List PoolWake.Op), PoolWake.StdOp op) ∧
+    (PoolWake.run (PoolWake.start PoolWake.p0)
+      [.call (.acquire 1) 0, .park 1, .call (.giveBack ⟨0⟩ 0) 1, .resume 1]).pool.held = [(1, ⟨⟨0⟩, 0⟩)] := by decide
 
 end C18
